@@ -339,7 +339,11 @@ class World:
         elif op == 'ci':
             self.declare_cls(c, ifs)
             ctx.op(op, c.__name__, nm(ifs))
-            classImplements(c, *ifs)
+            if ifs and rng.random() < 0.15:
+                classImplements(c, (x for x in ifs))
+                ctx.count('declarations_from_one_shot_iterables')
+            else:
+                classImplements(c, *ifs)
         elif op == 'deco':
             self.declare_cls(c, ifs)
             ctx.op(op, c.__name__, nm(ifs))
@@ -372,7 +376,13 @@ class World:
         elif op == 'dp':
             self.declare_obj(o, ifs)
             ctx.op(op, o.zname, nm(ifs))
-            directlyProvides(o, *ifs)
+            if ifs and rng.random() < 0.15:
+                # the interfaces handed over in a one-shot iterable (generator, map, iter)
+                k_ = rng.randrange(3)
+                directlyProvides(o, (x for x in ifs) if k_ == 0 else iter(list(ifs)) if k_ == 1 else map(lambda x: x, ifs))
+                ctx.count('declarations_from_one_shot_iterables')
+            else:
+                directlyProvides(o, *ifs)
         elif op == 'ap':
             # alsoProvides(ob, *new) is directlyProvides(ob, directlyProvidedBy(ob), *new): the old declaration is
             # passed as a Declaration, which is flattened into its interfaces (a class specification declared
